@@ -7,7 +7,8 @@ RULE = ('Rect (any corner order; boundary points on a grid included), RoundedRec
         'On the implementation: closed-form area / perimeter / bounding box / winding vs the same quantities of the shape\'s own outline at fine '
         'tolerance, and vs the ideal shape computed independently (membership with a 1e-6*scale guard band). Closed forms also compared with the '
         'Lean model (Rect, Triangle: exact rational model; others: Float model). non-trivial = distinct (shape, point set)')
-KERNEL_DEPS = [r'Rect\.(winding|area|perimeter|bounding_box|abs|center|width|height)', r'Affine\.(inverse|mul_Point|determinant|mul_Affine)']
+KERNEL_DEPS = [r'Rect\.(winding|area|perimeter|bounding_box|abs|center|width|height)', r'Affine\.(inverse|mul_Point|determinant|mul_Affine)',
+               r'K2:Triangle\..*', r'K2:Circle\..*', r'K2:CircleSegment\.(area|perimeter|winding)', r'K2:Ellipse\.(area|winding|bounding_box|radii)', r'K2:Affine\.svd']
 UNPROVED = ['agreement of circle/ellipse/rounded-rect closed forms with the Bezier OUTLINE within tolerance (needs the C10 stretch theorem): compared',
             'ellipse perimeter series (Kummer / AGM) bounds: compared against the outline length']
 ASSUMPTIONS = ['Rect / Triangle / RoundedRect closed forms are proved equal to the ray-casting winding of the outline (polygons) resp. ideal-set membership']
